@@ -13,6 +13,7 @@ labels handed over from another engine).
 """
 
 import copy
+import sys
 import math
 import random
 from fractions import Fraction
@@ -584,6 +585,7 @@ def _run(plan):
     from labella.node import Node
 
     seams.silence_stdio()
+    sys.setrecursionlimit(3000)  # the harness's own frames must never decide whether the solver's recursion fits
     stats = {}
     log = []
     checkpoints = []
@@ -960,6 +962,7 @@ def _reference(job):
 
     if not job.get("keep_stdout"):
         seams.silence_stdio()
+    sys.setrecursionlimit(3000)
     labels = sorted(job["labels"], key=lambda t: (t[0], t[1]))
     nodes = [Node(p, w, data={"i": i}) for i, (p, w) in enumerate(labels)]
     user_opts = {k: v for k, v in job["opts"].items()}
